@@ -179,6 +179,87 @@ func lemmaFreqHasLocsRoundTrip(freq uint64, hasLocs bool) {
 //@ ensures old(s.refs) != 1 ==> s.synIndexCache.cache == old(s.synIndexCache.cache) [C20]
 //@ end
 
+// the read-only accessors of an opened segment take no part in the reference protocol: they leave the segment's
+// mutex as they found it (a holder that is still inside one of them cannot keep the others from dropping their
+// references), the count untouched and every mapping and descriptor alive
+//@ func (*Segment).Path
+//@ thin
+//@ tags [C20]
+//@ requires muHeld(s.m) == 0
+//@ ensures muHeld(s.m) == 0 && s.refs == old(s.refs)
+//@ ensures $liveFiles == old($liveFiles) && $liveMaps == old($liveMaps)
+//@ end
+//@ func (*Segment).Data
+//@ thin
+//@ tags [C20]
+//@ requires muHeld(s.m) == 0
+//@ ensures muHeld(s.m) == 0 && s.refs == old(s.refs)
+//@ ensures $liveFiles == old($liveFiles) && $liveMaps == old($liveMaps)
+//@ end
+//@ func (*Segment).CRC
+//@ thin
+//@ tags [C20]
+//@ requires muHeld(s.m) == 0
+//@ ensures muHeld(s.m) == 0 && s.refs == old(s.refs)
+//@ ensures $liveFiles == old($liveFiles) && $liveMaps == old($liveMaps)
+//@ end
+//@ func (*Segment).Version
+//@ thin
+//@ tags [C20]
+//@ requires muHeld(s.m) == 0
+//@ ensures muHeld(s.m) == 0 && s.refs == old(s.refs)
+//@ ensures $liveFiles == old($liveFiles) && $liveMaps == old($liveMaps)
+//@ end
+//@ func (*Segment).ChunkMode
+//@ thin
+//@ tags [C20]
+//@ requires muHeld(s.m) == 0
+//@ ensures muHeld(s.m) == 0 && s.refs == old(s.refs)
+//@ ensures $liveFiles == old($liveFiles) && $liveMaps == old($liveMaps)
+//@ end
+//@ func (*Segment).FieldsIndexOffset
+//@ thin
+//@ tags [C20]
+//@ requires muHeld(s.m) == 0
+//@ ensures muHeld(s.m) == 0 && s.refs == old(s.refs)
+//@ ensures $liveFiles == old($liveFiles) && $liveMaps == old($liveMaps)
+//@ end
+//@ func (*Segment).StoredIndexOffset
+//@ thin
+//@ tags [C20]
+//@ requires muHeld(s.m) == 0
+//@ ensures muHeld(s.m) == 0 && s.refs == old(s.refs)
+//@ ensures $liveFiles == old($liveFiles) && $liveMaps == old($liveMaps)
+//@ end
+//@ func (*Segment).DocValueOffset
+//@ thin
+//@ tags [C20]
+//@ requires muHeld(s.m) == 0
+//@ ensures muHeld(s.m) == 0 && s.refs == old(s.refs)
+//@ ensures $liveFiles == old($liveFiles) && $liveMaps == old($liveMaps)
+//@ end
+//@ func (*Segment).NumDocs
+//@ thin
+//@ tags [C20]
+//@ requires muHeld(s.m) == 0
+//@ ensures muHeld(s.m) == 0 && s.refs == old(s.refs)
+//@ ensures $liveFiles == old($liveFiles) && $liveMaps == old($liveMaps)
+//@ end
+//@ func (*Segment).DictAddr
+//@ thin
+//@ tags [C20]
+//@ requires muHeld(s.m) == 0
+//@ ensures muHeld(s.m) == 0 && s.refs == old(s.refs)
+//@ ensures $liveFiles == old($liveFiles) && $liveMaps == old($liveMaps)
+//@ end
+//@ func (*Segment).ThesaurusAddr
+//@ thin
+//@ tags [C20]
+//@ requires muHeld(s.m) == 0
+//@ ensures muHeld(s.m) == 0 && s.refs == old(s.refs)
+//@ ensures $liveFiles == old($liveFiles) && $liveMaps == old($liveMaps)
+//@ end
+
 // ---- C17 / C18: writers, persist, merge driver ----
 
 //@ func (*CountHashWriter).Write returns (n, err)
@@ -710,6 +791,25 @@ func lemma1HitDiscriminator(docNum, normBits uint64) {
 //@ clean synonymIndexOpaque.tmp0 len0
 //@ clean synonymIndexOpaque.thesaurusAddrs exempt never reset: only keys written by writeThesauri in the same build are read (not decided here)
 
+// what the builder hands a section is what the section works on: the field table set for this build replaces whatever
+// table an earlier build left behind (the table is exempt from Reset for exactly this reason)
+//@ func (*synonymIndexOpaque).Set
+//@ thin
+//@ tags [C10,C12]
+//@ ensures key == "fieldsMap" ==> so.FieldsMap == payload(value) [C10,C12]
+//@ ensures key != "fieldsMap" ==> so.FieldsMap == old(so.FieldsMap) [C10,C12]
+//@ end
+
+//@ func (*invertedIndexOpaque).Set
+//@ thin
+//@ tags [C01,C10]
+//@ ensures key == "fieldsMap" ==> i.FieldsMap == payload(val) [C01,C10]
+//@ ensures key == "chunkMode" ==> int(i.chunkMode) == payload(val) [C01,C10]
+//@ ensures key == "numDocs" ==> int(i.numDocs) == payload(val) [C05,C10]
+//@ ensures key != "fieldsMap" ==> i.FieldsMap == old(i.FieldsMap) [C01,C10]
+//@ ensures key != "chunkMode" ==> i.chunkMode == old(i.chunkMode) [C01,C10]
+//@ end
+
 //@ func (*synonymIndexOpaque).Reset returns (err)
 //@ thin
 //@ tags [C10]
@@ -741,7 +841,12 @@ func lemma1HitDiscriminator(docNum, normBits uint64) {
 //@ wf requires base(s.tmp0) == nil || base(s.tmp0) != base(s.tmp1)
 //@ ensures base(s.tmp0) == nil || base(s.tmp0) != base(s.tmp1) [C02,C10]
 //@ ensures clean(s)
+// a builder that has section working memory keeps it (each section is reset through its own Reset); an empty table
+// is made only for a builder that had none - convert() initialises the sections only when it finds the table empty
+// at the very first build, so a later empty table would leave them without their arguments
+//@ ensures old(s.opaque) != nil ==> s.opaque == old(s.opaque) [C10]
 //@ loop 2 invariant len(s.metaBuf.buf) == 0 && s.metaBuf.off == 0
+//@ loop 2 invariant s.opaque == old(s.opaque) [C10]
 //@ end
 
 //@ func (*ZapPlugin).newWithChunkMode returns (sb, size, err)
@@ -1985,8 +2090,9 @@ func lemmaSynonymCodeRoundTrip(synonymID, docID uint32) {
 // excluded(i, code): the defining document of a synonym code is in the iterator's exclusion bitmap
 //@ pred synExcluded(i, code) = i.except != nil && sHas(bmSet(i.except), uint32(code % 4294967296))
 
+// (the synonym merge reads every input through this iterator, with the input's deletions as the exclusion set)
 //@ func (*SynonymsIterator).nextSynonym returns (synID, docNum, found, err)
-//@ tags [C12]
+//@ tags [C12,C13]
 //@ requires i != nil
 //@ requires i.Actual != nil ==> 0 <= it64Pos(i.Actual) && it64Pos(i.Actual) <= it64Len(i.Actual)
 //@ ensures err == nil
@@ -2332,7 +2438,8 @@ func lemmaSynonymCodeRoundTrip(synonymID, docID uint32) {
 //@ tags [C03,C06]
 //@ requires di != nil && s != nil
 //@ wf requires chunkNumber < uint64(len(di.chunkOffsets))
-//@ ensures err == nil ==> di.curChunkNum == chunkNumber && len(di.uncompressed) == 0 [C03,C06]
+// (a visit state that moves to another chunk carries nothing of the chunk it leaves: the decoded bytes are dropped)
+//@ ensures err == nil ==> di.curChunkNum == chunkNumber && len(di.uncompressed) == 0 [C03,C06,C11]
 // the header of the loaded chunk has exactly as many entries as the chunk announces (none of a chunk loaded before
 // into the same reader), each entry decoded from this chunk
 //@ local ensures err == nil && start >= end ==> len(di.curChunkHeader) == 0 [C03,C06]
